@@ -158,7 +158,7 @@ def sample_sizes(pm, ctx):
                     if isinstance(e, _a.Call) and norm_src(e.func) in ("min", "np.minimum") and e.args:
                         if any(canon_equal(a, P) for a in e.args):
                             return True
-                        sizes = [a for a in e.args if ".shape[" in norm_src(a)]
+                        sizes = [a for a in e.args if ".shape[" in str(norm_src(a)) or str(norm_src(a)).startswith("len(")]
                         return False if sizes else None
                     if isinstance(e, _a.Constant) and e.value == 1:
                         return True
